@@ -215,5 +215,6 @@ def sstep (s : SState) : Op → SState × Out
       if r.verdict.isSome || r.exited then (s, .unknown)
       else (s, if pair then .cpair r.note.pair else .cerr r.note.err)
     | none => (s, .bad)
+  | .clock _ => (s, .none)
 
 end Sentinel.Chain
